@@ -236,6 +236,13 @@ func testC03Cases(t *testing.T) {
 			op = cs.Op{Kind: "updatefunc", Q: &cs.Query{Coll: "A"}, Upd: &cs.Updater{Kind: "poison", Field: "x", Value: cs.V{X: int64(-5)}, N: int64(n - 1 - rapid.IntRange(0, 40).Draw(rt, "late"))}}
 			kind, updKind = "updatefunc", "poison"
 		}
+		if kind != "dropcoll" && rapid.IntRange(0, 5).Draw(rt, "faulted-first") == 0 {
+			// the same operation with one store call failing somewhere in its selection or write phase:
+			// it must report the failure and touch nothing (never "success" with a document skipped)
+			fo := op
+			fo.FaultAt = int64(rapid.SampledFrom([]int{3, 4, 5, 7, 9, 14, 20, 33, 60}).Draw(rt, "fault-at"))
+			do(fo)
+		}
 		do(op)
 		if len(ixs) > 0 && rapid.IntRange(0, 3).Draw(rt, "dropindex") == 0 {
 			// dropping an index over many entries must leave no residue (audited below)
